@@ -41,3 +41,7 @@ run h5 3 C03,C18,C07
 run h5 4 C08
 run h5 5 C01,C15
 run h5 6 C15,C07,C08
+run h7 1 C11,C01,C02
+run h7 2 C06,C03
+run h7 3 C06
+run h7 4 C03,C06
